@@ -12,6 +12,8 @@ import KafkaVerif.Lemmas.BatchBytes
 import KafkaVerif.Gen.MuxFacts
 import KafkaVerif.Model.WireProg
 import KafkaVerif.Model.ConnDeadline
+import KafkaVerif.Model.VarIntRead
+import KafkaVerif.Model.PoolDiscover
 
 namespace KV.C06
 open KV KV.ConnMux
@@ -1365,6 +1367,9 @@ parameters by position and data flow), so behaviour-preserving edits leave it tr
 * `promisePairedWithRequest`, `runAnswersItsOwnRequest` — TransportConn `Delivery`: the response of an exchange
   goes to the promise created with that request.
 * `loneOnlyWhenAlone` — `Event.lone` requires `aloneWaiting`.
+* `primitivesChargeWhatTheyConsume` — the primitives of read.go / discard.go themselves: every `r.Discard` /
+  `io.ReadFull` / `r.Read` has its byte count subtracted from the budget (`conserves_*` of Base/Reader,
+  `varint_read_conserves` below: the hypothesis `Prim.conserves` of `wire_discipline_consumes_frame`).
 * `readFailureCloseDropsBuffered` — `finish io` sets `closed`, and `closed_is_final` says no call takes a frame after
   that: in the code the close of an unreadable response must also drop what is buffered of it, under the read lock
   (finding C06-D30: closing the net.Conn alone left the leftover in the bufio.Reader for the waiting callers).
@@ -1388,7 +1393,35 @@ theorem structural_facts_hold :
     Gen.MuxFacts.wireSitesThreaded = true ∧ Gen.MuxFacts.remainOnlyFromPrims = true ∧
     Gen.MuxFacts.batchCallbacksThreaded = true ∧ Gen.MuxFacts.hooksInsideCriticalSections = true ∧
     Gen.MuxFacts.promisePairedWithRequest = true ∧ Gen.MuxFacts.runAnswersItsOwnRequest = true ∧
-    Gen.MuxFacts.loneOnlyWhenAlone = true ∧ Gen.MuxFacts.readFailureCloseDropsBuffered = true := by decide
+    Gen.MuxFacts.loneOnlyWhenAlone = true ∧ Gen.MuxFacts.readFailureCloseDropsBuffered = true ∧
+    Gen.MuxFacts.primitivesChargeWhatTheyConsume = true := by decide
+
+/-- **readVarInt conserves bytes however the response is cut into chunks** (Model/VarIntRead.lean).  `Prim.varint` of
+Model/WireProg.lean took this for granted; it is now proved for the algorithm of read.go itself — the window of buffered
+bytes at each turn of its loop is an arbitrary list — including the branch that makes room in the buffer in the middle
+of a number (seed C06-m7 dropped `sz -= n` there: the budget stayed too high by the bytes already consumed, and
+`Batch.close` discarded that many bytes of the NEXT response). -/
+theorem varint_read_conserves (fuel : Nat) (ws : List Nat) (s : Reader.RS) :
+    Reader.Adv s (VarIntRead.readVarInt fuel ws s).2 := VarIntRead.readVarInt_conserves fuel ws s
+
+/-- the value and the bytes consumed do not depend on where the chunk boundary falls: 300 zig-zag-encoded on two bytes
+(value 150), all at once, split inside the number, and with a third byte waiting -/
+def okVal (r : Except Reader.Err Int × Reader.RS) : Option Int × Reader.RS :=
+  (match r.1 with | .ok v => some v | .error _ => none, r.2)
+
+def isShortRead (r : Except Reader.Err Int × Reader.RS) : Bool :=
+  match r.1 with | .error .shortRead => true | _ => false
+
+theorem varint_chunking_examples :
+    okVal (VarIntRead.readVarInt 8 [3] ⟨[0xAC, 0x02, 9], 3⟩) = (some 150, ⟨[9], 1⟩) ∧
+    okVal (VarIntRead.readVarInt 8 [1, 2] ⟨[0xAC, 0x02, 9], 3⟩) = (some 150, ⟨[9], 1⟩) ∧
+    okVal (VarIntRead.readVarInt 8 [1, 1, 1] ⟨[0xAC, 0x02, 9], 3⟩) = (some 150, ⟨[9], 1⟩) ∧
+    okVal (VarIntRead.readVarInt 8 [0, 2] ⟨[0xAC, 0x02, 9], 3⟩) = (some 150, ⟨[9], 1⟩) ∧
+    -- the budget ends inside the number: errShortRead with the budget used up
+    isShortRead (VarIntRead.readVarInt 8 [1, 2] ⟨[0xAC, 0x02, 9], 1⟩) = true ∧
+    (VarIntRead.readVarInt 8 [1, 2] ⟨[0xAC, 0x02, 9], 1⟩).2 = ⟨[0x02, 9], 0⟩ ∧
+    -- the stream ends inside the number
+    (VarIntRead.readVarInt 8 [1] ⟨[0xAC], 5⟩).2 = ⟨[], 4⟩ := by decide
 
 /-- **Every reader in the size-threading discipline consumes its frame whole.**  Model/BatchBytes.lean spells out the
 magic-0/1 path; the rest of message_reader.go (record batches, varints, record headers, both decompression sites,
@@ -1435,7 +1468,7 @@ def waitResponseModelRow (sc : List String) : List String :=
   let fid := if im then 1 else 7
   let pre : List Event := if al then [.write 10 true 1] else [.write 10 true 1, .write 20 true 2]
   -- somebody else's frame at the head and this call's deadline has passed: the wait ends like a failed Peek (C06-D32)
-  let dp := flag sc "deadlinePassed"
+  let dp := flag sc "deadlinePassed" && flag sc "hasDeadline"
   let ev : Event := if pf then .peekErr 1 else if im then .take 1 else if al then .lone 1 7 else if dp then .peekErr 1 else .yield 1 7
   match run [⟨fid, 0⟩] pre with
   | none => ["model: no such state"]
@@ -1803,5 +1836,108 @@ theorem flow_tables_release_detached :
   set_option maxRecDepth 8192 in decide
 
 end Deadline
+
+/-! ## Part 7 — the pool's metadata refresh applies the answer to ITS request
+
+Model/PoolDiscover.lean.  "No call ever receives another call's response or a response left over from an exchange that
+was abandoned" also binds the calls the Transport makes for itself: the refresh loop of the connection pool abandons a
+refresh on its deadline and starts the next one while the connection goroutine may still deliver the outcome of the
+abandoned request.  With a promise per refresh that late outcome lands where nobody listens. -/
+
+section Discover
+open KV.PoolDiscover
+
+/-- every promise channel holds, if anything, the outcome of the request it was created for -/
+def PInv (s : PoolDiscover.State) : Prop :=
+  (∀ c r, s.chan c = some r → r.req = c) ∧ (∀ k r, (k, r) ∈ s.applied → r.req = k)
+
+theorem pinv_step {s s' : PoolDiscover.State} {e : PoolDiscover.Event} (hi : PInv s)
+    (h : PoolDiscover.step true s e = some s') : PInv s' := by
+  obtain ⟨hc, ha⟩ := hi
+  cases e with
+  | start =>
+    simp only [PoolDiscover.step] at h
+    split at h
+    · simp only [Option.some.injEq] at h; subst h; exact ⟨hc, ha⟩
+    · cases h
+  | complete j ok =>
+    simp only [PoolDiscover.step] at h
+    split at h
+    · simp only [Option.some.injEq] at h; subst h
+      refine ⟨?_, ha⟩
+      intro c r hr
+      simp only [chanOf, ↓reduceIte] at hr
+      split at hr
+      · next hcj => subst hcj; simp only [Option.some.injEq] at hr; subst hr; cases ok <;> rfl
+      · exact hc c r hr
+    · cases h
+  | take =>
+    simp only [PoolDiscover.step] at h
+    split at h
+    · next k hk =>
+      split at h
+      · next r hr =>
+        simp only [Option.some.injEq] at h; subst h
+        refine ⟨?_, ?_⟩
+        · intro c r' hr'
+          simp only at hr'
+          split at hr'
+          · cases hr'
+          · exact hc c r' hr'
+        · intro k' r' hm
+          simp only [List.mem_append, List.mem_singleton, Prod.mk.injEq] at hm
+          rcases hm with hm | ⟨rfl, rfl⟩
+          · exact ha k' r' hm
+          · have := hc _ _ hr; simpa [chanOf] using this
+      · cases h
+    · cases h
+  | timeout =>
+    simp only [PoolDiscover.step] at h
+    split at h
+    · next k hk =>
+      simp only [Option.some.injEq] at h; subst h
+      refine ⟨hc, ?_⟩
+      intro k' r' hm
+      simp only [List.mem_append, List.mem_singleton, Prod.mk.injEq] at hm
+      rcases hm with hm | ⟨rfl, rfl⟩
+      · exact ha k' r' hm
+      · rfl
+    · cases h
+
+theorem pinv_run : ∀ (es : List PoolDiscover.Event) (s s' : PoolDiscover.State), PInv s →
+    PoolDiscover.runFrom true s es = some s' → PInv s' := by
+  intro es
+  induction es with
+  | nil => intro s s' hi h; simp [PoolDiscover.runFrom] at h; subst h; exact hi
+  | cons e es ih =>
+    intro s s' hi h
+    simp only [PoolDiscover.runFrom] at h
+    split at h
+    · cases h
+    · next s1 h1 => exact ih s1 s' (pinv_step hi h1) h
+
+/-- **refresh_applies_own_outcome** — for every interleaving of the refresh loop (start, deadline) with the connection
+goroutine (late completions included): what refresh k gives to `p.update` is the outcome of request k — its answer, its
+error, or its own deadline — never the outcome of an earlier, abandoned request -/
+theorem refresh_applies_own_outcome (es : List PoolDiscover.Event) (s : PoolDiscover.State)
+    (h : PoolDiscover.run true es = some s) (k : Nat) (r : PoolDiscover.Res) (hm : (k, r) ∈ s.applied) : r.req = k :=
+  (pinv_run es PoolDiscover.init s ⟨by intro c r h; simp [PoolDiscover.init] at h, by intro k r h; simp [PoolDiscover.init] at h⟩ h).2 k r hm
+
+/-- the promise per refresh is needed (seed C06-m8: one channel for all refreshes): refresh 1 is abandoned on its
+deadline, refresh 2 starts, the late answer to request 1 arrives — and refresh 2 applies it as its own; its real answer
+is then applied by refresh 3: the cache runs one generation behind -/
+theorem shared_promise_counterexample :
+    (PoolDiscover.run false [.start, .timeout, .start, .complete 1 true, .take, .start, .complete 2 true, .take]).map
+      (·.applied) = some [(1, .error 1), (2, .answer 1), (3, .answer 2)] := by decide
+
+/-- with a promise per refresh the same schedule: the late answer stays in its abandoned promise -/
+theorem own_promise_example :
+    (PoolDiscover.run true [.start, .timeout, .start, .complete 1 true, .complete 2 true, .take]).map (·.applied) =
+      some [(1, .error 1), (2, .answer 2)] := by decide
+
+/-- the allocation site, re-read from transport.go this run -/
+theorem discover_promise_per_refresh : Gen.MuxFacts.discoverPromisePerRefresh = true := by decide
+
+end Discover
 
 end KV.C06
